@@ -16,7 +16,7 @@ mkdir -p "$SIM/out"
 rsync -a --exclude target "${SIM_SRC:-/verif/sim}/" "$SIM/sim/"
 [ -d /verif/pinned ] && rsync -a /verif/pinned/ "$SIM/pinned/" 2>/dev/null
 sed -i "s#/repo/#$WT/#g" "$SIM/sim/Cargo.toml"
-cp "${KNOWN_SRC:-/verif/KNOWN_FINDINGS.txt}" "$SIM/out/"
+cp "${KNOWN_SRC:-/verif/KNOWN_FINDINGS.txt}" "$SIM/out/KNOWN_FINDINGS.txt"
 ( cd "$SIM/sim" && CARGO_TARGET_DIR=/tmp/sc_target_$NAME CARGO_NET_OFFLINE=true cargo build --release --offline >"$SIM/build.log" 2>&1 ) || { echo "BUILD FAILED"; grep -E "^error" -A8 "$SIM/build.log" | head -30; git -C /repo worktree remove --force "$WT"; rm -rf "$SIM" /tmp/sc_target_$NAME; exit 2; }
 ulimit -v 25165824 2>/dev/null || true
 RC=0
